@@ -12,10 +12,10 @@ FWHM2SIG = 1.0 / (2.0 * math.sqrt(2.0 * math.log(2.0)))
 LN2x4 = 4.0 * math.log(2.0)
 
 
-def make_header(proj, crval, crpix, scale_arcsec, shape, beam_px, flipy=False):
+def make_header(proj, crval, crpix, scale_arcsec, shape, beam_px, flipy=False, rot=0.0):
     """shape = (rows, cols); beam_px = (bmaj_px, ratio, bpa_deg); returns (ZWCS, fits.Header)"""
     s = scale_arcsec / 3600.0
-    w = refs.ZWCS(proj, crval[0], crval[1], crpix[0], crpix[1], -s, -s if flipy else s)
+    w = refs.ZWCS(proj, crval[0], crval[1], crpix[0], crpix[1], -s, -s if flipy else s, rot)
     hdr = fits.Header()
     hdr["SIMPLE"] = True
     hdr["BITPIX"] = -64
@@ -92,7 +92,7 @@ def pixel_beam(w, hdr):
     bmaj, bmin, bpa = hdr["BMAJ"], hdr["BMIN"], hdr["BPA"]
     c = cov_of(bmaj, bmin, bpa)            # (east, north) in deg^2
     # at the reference pixel: east = -axis1 * |cdelt1| (cdelt1 < 0), north = axis2 * cdelt2
-    J = np.array([[1.0 / w.cdelt1, 0.0], [0.0, 1.0 / w.cdelt2]])    # d(pix)/d(east, north): east = cdelt1*dp1 (cdelt1<0)
+    J = np.array(w.icd)      # d(pix)/d(east, north); without rotation diag(1/cdelt1, 1/cdelt2), east = cdelt1*dp1 (cdelt1<0)
     return J.dot(c).dot(J.T)
 
 
